@@ -10,6 +10,7 @@ from engine import pat
 from engine.util import own_nodes, calls_with_nodes, where, with_exprs
 
 RULES = {
+    "R-03.6": "the compression table and Message.index are keyed by names: Name equality is derived from the one three-way comparison (C06 R-06.1 adopted), so two names with different label boundaries never collide",
     "R-03.1": "writer and reader agree on the message header, question and RR header layouts (struct formats, field order, section numbering, empty-rdataset form)",
     "R-03.2": "a section count is increased only after the size-tracked block completed, by the number of RRs that block wrote; Rdataset.to_wire returns that number",
     "R-03.3": "the only compression table on the render path is Renderer.compress and it always travels with Renderer.output; Rdataset/RRset pass both through unchanged",
@@ -200,6 +201,7 @@ def run(model, rep, tier):
     from rules.c08 import check_rollback_purge
     check_rollback_purge(model, rep, "R-03.3")
     check_padded_opt(model, rep, "R-03.5")
+    rep.share(model, "C06", {"R-06.1"}, "R-03.6", "compress[n] and Message.index use Name.__eq__/__hash__; a name equal to a different name is emitted as a pointer to the wrong suffix")
     rep.meta["explanation"] = (
         "Layout agreement of the hand-written writer/reader pairs at the message layer (struct formats folded and compared field by field), statement-position rule for the section counts, "
         "provenance of the compression table argument at every to_wire call that receives the renderer's buffer, and who-may-write on the section index. "
